@@ -36,7 +36,7 @@ def _states(N, kind):
     return out
 
 
-def induct_task(cls_name, ctype, cone, W, N, prop, tier, base_only=False, rounds=1):
+def induct_task(cls_name, ctype, cone, W, N, prop, tier, base_only=False, rounds=1, weak_slack=False):
     """rounds = 1: one step from every invariant-satisfying state (induction).  base_only: only the
     initial state, `rounds` consecutive rounds with fresh symbolic regions per round and fixed
     truths — every failure here is a reachable history and is realised + replayed."""
@@ -49,7 +49,7 @@ def induct_task(cls_name, ctype, cone, W, N, prop, tier, base_only=False, rounds
     kind = "paveba" if cls_name in A.PAVEBA else "pess"
     Wq = Wz(W)
     nslack = m if rtype == "hyperrectangle" else K
-    ex = Explorer(f"{prop}:{'base' if base_only else 'step'}:{cls_name}[{rtype[5:9]},{cone},N={N}"
+    ex = Explorer(f"{prop}:{'base' if base_only else 'step'}{'(weak slack)' if weak_slack else ''}:{cls_name}[{rtype[5:9]},{cone},N={N}"
                   f"{',rounds=' + str(rounds) if rounds > 1 else ''}]", query_timeout_ms=60000, max_paths=400000)
     ex.stop_after_candidates = 3
     state = {}
@@ -66,6 +66,12 @@ def induct_task(cls_name, ctype, cone, W, N, prop, tier, base_only=False, rounds
         dom_t = lambda j, i: zand([dotz(r, diff(j, i)) >= 0 for r in Wq])  # noqa  μ_j ≽ μ_i
         if kind == "paveba":
             epsa = [eps.e * sym.rv(Fraction(float(x))) for x in aflat]
+            if weak_slack:
+                # what the rectangle predicate can guarantee when it is handed ε·α in objective space: facet n is
+                # only pushed to ε·(Wα)_n.  Proving J1–J3 with this weaker bound separates the known finding
+                # F-C01-rect-slack-in-objective-space from any *other* way of breaking the guarantee.
+                wa = W @ aflat
+                epsa = [eps.e * sym.rv(Fraction(float(max(x, y)))) for x, y in zip(aflat, wa)]
             gap_ok = lambda j, p: zor([dotz(Wq[n], diff(j, p)) <= epsa[n] * one_tau for n in range(K)])  # noqa
             J1 = lambda S_, P_, D_: zand([zor([dom_t(q, d) for q in (S_ | P_)]) for d in D_])  # noqa
             J2 = lambda P_: zand([gap_ok(j, p) for p in P_ for j in range(N) if j != p])  # noqa
@@ -272,7 +278,7 @@ def _candidate(ex, ctx, name, claim, hist, mu, cls_name, ctype, cone, W, alpha, 
     ex.candidate(name, {"kind": "induct", "prop": prop, "cls": cls_name, "ctype": ctype, "cone": cone, "W": W.tolist(), "N": N,
                         "eps": frac_json(mv(eps.e)), "rounds": rounds_json,
                         "mu": frac_json([[mv(e) for e in row] for row in zs(mu)]), "claim": name},
-                 {"cls": cls_name, "region": rtype, "cone": cone, "claim": name[:2],
+                 {"cls": cls_name, "region": rtype, "cone": cone, "claim": name[:2] + ("w" if "(weak slack)" in ex.name else ""),
                   "max_Walpha_over_alpha": float(np.max((W @ aflat) / aflat)) if K == m else None})
 
 
